@@ -11,6 +11,8 @@ import (
 
 // FuncResult is the outcome of generating obligations for one function.
 type FuncResult struct {
+	Locals      map[string]string // local name -> "ordinal:type"
+	Rebound     []string
 	Func        string
 	Contract    *Contract
 	Obligations []*Obligation
@@ -472,6 +474,13 @@ func VerifyFunc(w *World, c *Contract) (res *FuncResult) {
 			}
 		}
 		res.Obligations = x.obls
+		res.Rebound = x.rebound
+		res.Locals = map[string]string{}
+		for i, v := range x.localList {
+			if _, dup := res.Locals[v.Name()]; !dup {
+				res.Locals[v.Name()] = fmt.Sprintf("%d:%s", i, v.Type().String())
+			}
+		}
 		res.Inlined = x.inlined
 		res.Errors = append(res.Errors, x.failures...)
 	}()
@@ -488,6 +497,15 @@ func VerifyFunc(w *World, c *Contract) (res *FuncResult) {
 	}
 	fr := &frame{fi: fi, pkg: fi.Pkg, top: true}
 	x.frames = []*frame{fr}
+	// locals in source order (for rebinding renamed locals)
+	ast.Inspect(fi.Body(), func(n ast.Node) bool {
+		if id, ok := n.(*ast.Ident); ok {
+			if v, ok := fi.Pkg.TypesInfo.Defs[id].(*types.Var); ok && !v.IsField() {
+				x.localList = append(x.localList, v)
+			}
+		}
+		return true
+	})
 	x.computeBoxed(fi)
 	st := &State{vars: map[*types.Var]Term{}, heap: map[string]Term{}, gen: x.newGen()}
 	st.alloc = x.ctx.Fresh("alloc", SInt)
@@ -895,9 +913,9 @@ func (x *Exec) checkFrame(st *State, pos token.Pos) {
 			for _, r := range refs {
 				ex = append(ex, fmt.Sprintf("(not (= r %s))", r.S))
 			}
-			guard := fmt.Sprintf("(and (< r %s) %s)", old.alloc.S, strings.Join(ex, " "))
+			guard := fmt.Sprintf("(and (< 0 r) (< r %s) %s)", old.alloc.S, strings.Join(ex, " "))
 			if len(ex) == 0 {
-				guard = fmt.Sprintf("(< r %s)", old.alloc.S)
+				guard = fmt.Sprintf("(and (< 0 r) (< r %s))", old.alloc.S)
 			}
 			goal = Term{fmt.Sprintf("(forall ((r Int)) (=> %s (= (select %s r) (select %s r))))", guard, cur.S, was.S), SBool}
 		}
